@@ -757,6 +757,29 @@ pub fn take_panics() -> Vec<PanicRec> {
     std::mem::take(&mut *PANICS.lock().unwrap_or_else(|e| e.into_inner()))
 }
 
+/// Runs `f` from a destructor while the thread is unwinding from an unrelated panic (a cleanup
+/// guard that uses the library on its way out). The destructor catches whatever `f` does; the
+/// result (or the payload text of `f`'s own panic) is handed back after the unwinding was caught.
+pub fn during_unwind<R>(f: impl FnOnce() -> R) -> Result<R, String> {
+    struct OnUnwind<F: FnOnce()>(Option<F>);
+    impl<F: FnOnce()> Drop for OnUnwind<F> {
+        fn drop(&mut self) {
+            if let Some(f) = self.0.take() {
+                f()
+            }
+        }
+    }
+    let out: std::cell::RefCell<Option<Result<R, String>>> = std::cell::RefCell::new(None);
+    let _ = std::panic::catch_unwind(std::panic::AssertUnwindSafe(|| {
+        let _guard = OnUnwind(Some(|| {
+            let r = std::panic::catch_unwind(std::panic::AssertUnwindSafe(f));
+            *out.borrow_mut() = Some(r.map_err(|p| payload_str(&*p)));
+        }));
+        std::panic::panic_any("INJECTED-PANIC scoped (an unrelated panic; a destructor uses the library on the way out)".to_string());
+    }));
+    out.into_inner().unwrap_or_else(|| Err("harness: the destructor did not run".to_string()))
+}
+
 /// Panic payload that is not a message (`panic_any` of a user type: an error value, a code).
 #[derive(Debug, Clone, PartialEq, Eq)]
 pub struct InjectedPayload {
